@@ -15,6 +15,7 @@ from ..common import Check
 from ..tlaval import cps
 
 LEVEL = "model_checking"
+RULE = ('cases = Gen_Selection.tla (include list | exclude list, SAST input kinds) over the real registry ids and glob patterns; non-trivial when the list is non-empty or a SAST input is given; distinct = distinct (label, kind, list, sast)')
 
 
 def _pool_from_ids(ids: list[str]) -> list[str]:
